@@ -1,7 +1,9 @@
 // C14b_narrow.cpp (binary C14b) -- narrow / mixed scalar types: column * row products (2x1 * 1x2,
 // more rows than columns on the left) for every scalar pair of C14_narrow*.cpp, and
-// matrix<Left> * vector<Right> with Left != Right (also compile probe matrix_vector_mixed_scalars).
+// matrix<Left> * vector<Right> with Left != Right (also compile probe matrix_vector_mixed_scalars);
+// writes of the built-in scalar int through every accessor (C14_access.hpp; compile probes write_*_int).
 #define C14_WITH_TALL 1
+#include "C14_access.hpp"
 #include "C14_narrow.hpp"
 
 namespace c14
@@ -18,6 +20,7 @@ template <class L, class R> void column_row()
 
 void register_b_narrow()
 {
+  vrt::shard("write_access/int", [] { access::all_write_access<int>(); });
   vrt::shard("tall/narrow/column_row", [] {
     column_row<i8, i8>();
     column_row<u8, u8>();
